@@ -242,14 +242,53 @@ def _angle(fi: FuncInfo, main: ast.For, cp: ast.Call):
     return a
 
 
+def _index_form(fi: FuncInfo, loop: ast.For, fresh: str):
+    """(index variable, element variable or None, list name or None, range text in terms of len(<list>), reversal
+    parity) of a loop written over positions (`range(..)`), over `enumerate(L)` or over a slice `L[a:]` of a list"""
+    binds = {n.targets[0].id: n.value for n in fi.body if isinstance(n, ast.Assign) and isinstance(n.targets[0], ast.Name)}
+    core, par = q.reversal_parity(loop.iter)
+    lens = {k: norm(v.args[0]) for k, v in binds.items() if isinstance(v, ast.Call) and norm(v.func) == "len" and len(v.args) == 1}
+
+    def canon(t: str) -> str:
+        import re
+
+        for k, L in lens.items():
+            t = re.sub(rf"(?<![\w.]){k}(?!\w)", f"len({L})", t)
+        return t.replace(" ", "")
+
+    if isinstance(core, ast.Call) and norm(core.func) == "range" and isinstance(loop.target, ast.Name):
+        a = [canon(norm(x)) for x in core.args]
+        rng = f"range({a[0]})" if len(a) == 1 else f"range({','.join(a)})"
+        return loop.target.id, None, None, rng.replace("range(0,", "range("), par
+    if isinstance(core, ast.Call) and norm(core.func) == "enumerate" and len(core.args) == 1 and isinstance(core.args[0], ast.Name) and isinstance(loop.target, ast.Tuple) and len(loop.target.elts) == 2:
+        L = core.args[0].id
+        return norm(loop.target.elts[0]), norm(loop.target.elts[1]), L, f"range(len({L}))", par
+    if isinstance(core, ast.Subscript) and isinstance(core.slice, ast.Slice) and isinstance(core.value, ast.Name) and core.slice.step is None and isinstance(loop.target, ast.Name):
+        L = core.value.id
+        lo = canon(norm(core.slice.lower)) if core.slice.lower is not None else "0"
+        up = canon(norm(core.slice.upper)) if core.slice.upper is not None else f"len({L})"
+        return fresh, loop.target.id, L, (f"range({lo},{up})" if lo != "0" else f"range({up})"), par
+    return None
+
+
+def _subst_names(text: str, mp: Dict[str, str]) -> str:
+    import re
+
+    for k, v in mp.items():
+        text = re.sub(rf"(?<![\w.]){re.escape(k)}(?!\w)", v, text)
+    return text
+
+
 def check_mirror(ctx: Ctx, qft: FuncInfo, iqft: FuncInfo):
     s1, m1, w1 = _template(qft)
     s2, m2, w2 = _template(iqft)
     ctx.check(s2 == list(reversed(s1)), "SB-MIRROR", iqft, "steps in reverse order", f"qft {s1} / iqft {s2}", f"qft does {s1}, iqft does {s2}: the inverse must undo the last step first", iqft.node)
-    c1, p1 = q.reversal_parity(m1.iter)
-    c2, p2 = q.reversal_parity(m2.iter)
-    ctx.check(norm(c1) == norm(c2) and p1 != p2, "SB-MIRROR", iqft, "outer loop runs backwards", f"{norm(m1.iter)} / {norm(m2.iter)}", f"outer loops `{norm(m1.iter)}` and `{norm(m2.iter)}` are not each other's reversal", m2)
-    i1, i2 = norm(m1.target), norm(m2.target)
+    f1, f2 = _index_form(qft, m1, "I"), _index_form(iqft, m2, "I")
+    if f1 is None or f2 is None:
+        ctx.undecided(iqft.short, f"outer loops `{norm(m1.iter)}` / `{norm(m2.iter)}` are not loops over positions, enumerate(list) or a list slice")
+        return
+    (i1, e1, L1, r1, p1), (i2, e2, L2, r2, p2) = f1, f2
+    ctx.check(r1 == r2 and p1 != p2, "SB-MIRROR", iqft, "outer loop runs backwards", f"{norm(m1.iter)} / {norm(m2.iter)}", f"outer loops `{norm(m1.iter)}` ({r1}, {p1} reversals) and `{norm(m2.iter)}` ({r2}, {p2} reversals) are not each other's reversal", m2)
 
     def body_kinds(m):
         out = []
@@ -267,18 +306,30 @@ def check_mirror(ctx: Ctx, qft: FuncInfo, iqft: FuncInfo):
     if in1 is None or in2 is None:
         raise AnchorError(iqft.short, "controlled-phase loop not found")
     ctx.check(k2 == list(reversed(k1)), "SB-MIRROR", iqft, "per-qubit steps in reverse order", f"qft {k1} / iqft {k2}", f"within one outer iteration qft does {k1} and iqft does {k2}", m2)
-    c1, p1 = q.reversal_parity(in1.iter)
-    c2, p2 = q.reversal_parity(in2.iter)
-    ctx.check(norm(c1).replace(i1, "I") == norm(c2).replace(i2, "I") and p1 != p2, "SB-MIRROR", iqft, "inner loop runs backwards over the same range", f"{norm(in1.iter)} / {norm(in2.iter)}", f"inner loops `{norm(in1.iter)}` and `{norm(in2.iter)}` are not each other's reversal", in2)
+    g1, g2 = _index_form(qft, in1, "J"), _index_form(iqft, in2, "J")
+    if g1 is None or g2 is None:
+        ctx.undecided(iqft.short, f"inner loops `{norm(in1.iter)}` / `{norm(in2.iter)}` are not loops over positions or a list slice")
+        return
+    (j1, ej1, LJ1, rj1, pj1), (j2, ej2, LJ2, rj2, pj2) = g1, g2
+    ctx.check(_subst_names(rj1, {i1: "I"}) == _subst_names(rj2, {i2: "I"}) and pj1 != pj2, "SB-MIRROR", iqft, "inner loop runs backwards over the same range", f"{norm(in1.iter)} / {norm(in2.iter)}", f"inner loops `{norm(in1.iter)}` and `{norm(in2.iter)}` are not each other's reversal", in2)
     cp1 = [c for c in q.calls(in1) if dotted(c.func) == "self.cp"]
     cp2 = [c for c in q.calls(in2) if dotted(c.func) == "self.cp"]
     if len(cp1) != 1 or len(cp2) != 1:
         raise AnchorError(iqft.short, "expected one cp per inner iteration")
-    j1, j2 = norm(in1.target), norm(in2.target)
-    wires1 = [norm(a).replace(i1, "I").replace(j1, "J") for a in cp1[0].args[1:]]
-    wires2 = [norm(a).replace(i2, "I").replace(j2, "J") for a in cp2[0].args[1:]]
+    # element variables stand for <list>[<position>]
+    mp1 = {i1: "I", j1: "J"}
+    mp2 = {i2: "I", j2: "J"}
+    el1 = {k: v for k, v in ((e1, f"{L1}[I]"), (ej1, f"{LJ1}[J]")) if k}
+    el2 = {k: v for k, v in ((e2, f"{L2}[I]"), (ej2, f"{LJ2}[J]")) if k}
+    wires1 = [_subst_names(_subst_names(norm(a), el1), mp1) for a in cp1[0].args[1:]]
+    wires2 = [_subst_names(_subst_names(norm(a), el2), mp2) for a in cp2[0].args[1:]]
     ctx.check(wires1 == wires2, "SB-MIRROR", iqft, "same control/target wires", str(wires1), f"qft applies cp on {wires1}, iqft on {wires2}", cp2[0])
     a1, a2 = _angle(qft, m1, cp1[0]), _angle(iqft, m2, cp2[0])
+    for fn_, a_, els, cp_ in ((qft, a1, el1, cp1[0]), (iqft, a2, el2, cp2[0])):
+        used = sorted(q.names_in(a_) & set(els))
+        ctx.check(not used, "SB-MIRROR", fn_, "the rotation angle depends on positions in the list, not on qubit labels", norm(a_), f"the angle `{norm(a_)}` is computed from {used}, which are elements of the qubit list (wire labels), not positions: for a list that is not 0, 1, 2, ... in order the rotation is wrong (and qft / iqft no longer cancel)", cp_)
+    if (q.names_in(a1) & set(el1)) or (q.names_in(a2) & set(el2)):
+        return
     ok = True
     bad = None
     for i in range(0, 4):
